@@ -195,7 +195,7 @@ macro "rep_start" h:term : tactic =>
       simp only [T4.stoST, T4.stoTT, T4.stoTS, T4.stoS2T, T4.ofST, T4.ofTT, T4.ofTS, T4.ofS2T, T2.ofTens, T2.ofSt,
         T4.comp, T4.transpose, T2.dyad, vi_pS, ti_pT, iw2_eq $h h2, w2_eq $h, sum3, sumS, sumT]
       try simp only [vi, ti]))
-macro "rep_mat_TT" h:term : tactic => `(tactic| (funext I J; rep_start $h; first | rfl | ring1))
+macro "rep_mat_TT" h:term : tactic => `(tactic| (funext I J; rep_start $h; all_goals ((try simp only [(w_lit c).1, (w_lit c).2.1, (w_lit c).2.2.1, (w_lit c).2.2.2.1, (w_lit c).2.2.2.2.1, (w_lit c).2.2.2.2.2, (iw_lit c).1, (iw_lit c).2.1, (iw_lit c).2.2.1, (iw_lit c).2.2.2.1, (iw_lit c).2.2.2.2.1, (iw_lit c).2.2.2.2.2]); first | rfl | ring1 | mandel_ring $h)))
 macro "rep_mat_SS" h:term : tactic =>
   `(tactic| (funext I J
              rep_start $h
@@ -264,7 +264,7 @@ theorem comp_rot_comp_rot (R : T2 K) (C : T4 K) :
     T4.comp (T4.comp (T4.rot R) C) (T4.rot (T2.transpose R)) = T4.pushForward (T2.transpose R) C := by
   funext i j k l
   simp only [T4.comp, T4.rot, T4.pushForward, T2.transpose, sum3]
-  ring
+  try ring
 
 /-- bridge to the explicit matrices of Common/M3 -/
 theorem ofM3_mul (A B : M3 K) : T2.ofM3 (A * B) = T2.mul (T2.ofM3 A) (T2.ofM3 B) := by
